@@ -903,6 +903,18 @@ func propCases(prop string, g *Gen, n int) []*Case {
 				if _, isNil := specText(r); isNil {
 					r = &R{Op: "wrapf", Kids: []*R{{Op: "new", S: []string{g.sS()}}}, Fmt: f}
 				}
+			case 17:
+				// a secondary error that repeats the type and the message of its primary (the same failure hit twice,
+				// the first one annotated and attached to the second): its safe payload is retained all the same
+				msg := g.sS()
+				sec := &R{Op: "safedetails", Kids: []*R{{Op: "new", S: []string{msg}}}, Fmt: []FP{{Kind: "lit", S: g.sS() + " "}, {Kind: "safestr", Verb: "s", S: g.sS()}}}
+				if g.r.chance(50) {
+					sec = &R{Op: "telemetry", Kids: []*R{sec}, Strs: []string{g.sS()}}
+				}
+				r = &R{Op: "secondary", Kids: []*R{{Op: "new", S: []string{msg}}, sec}}
+				if g.r.chance(40) {
+					r = g.Wrapper(r, 1)
+				}
 			}
 			add(&Case{R: r, Obs: obs, Oracles: []string{"C12"}, Hops: [][][]string{knowing1, knowing2}})
 		}
